@@ -34,7 +34,9 @@ def patches():
         if os.path.exists(p) and os.path.exists(meta):
             m = json.load(open(meta))
             for prop in (m.get("checks") or [m.get("property")]):
-                out.append((prop, "seeded/" + os.path.basename(d), p, "seeded"))
+                # a seeded change that a later repair of /repo made harmless (its own demonstration passes with it applied) must leave the
+                # check silent
+                out.append((prop, "seeded/" + os.path.basename(d), p, "seeded-neutralised" if m.get("neutralised_by") else "seeded"))
     return out
 
 
@@ -70,6 +72,8 @@ def main():
             continue
         res = run_one(prop, name, patch, args.tier)
         res["kind"] = kind
+        if kind == "seeded-neutralised":
+            res["verdict"] = {"MISSED": "SILENT-AS-EXPECTED (change made harmless by a later repair)", "CAUGHT": "ALARM-ON-HARMLESS-CHANGE"}.get(res["verdict"], res["verdict"])
         rows.append(res)
         print("%-12s %-60s %-7s %5.1fs %s" % (res["verdict"], name, prop, res["wall"], ",".join(res.get("keys", []))[:120]), flush=True)
         if res.get("tail"):
@@ -80,7 +84,7 @@ def main():
             f.write("| patch | check | verdict | wall s | violation keys |\n|---|---|---|---|---|\n")
             for r in rows:
                 f.write("| %s | %s | %s | %s | %s |\n" % (r["name"], r["prop"], r["verdict"], r["wall"], ", ".join(r.get("keys", []))))
-    return 0 if all(r["verdict"] == "CAUGHT" for r in rows) else 1
+    return 0 if all(r["verdict"] == "CAUGHT" or r["verdict"].startswith("SILENT-AS-EXPECTED") for r in rows) else 1
 
 
 if __name__ == "__main__":
